@@ -199,6 +199,27 @@ func VF_C09_CatalogSort(n, mode int) {
 		c.ReverseValues()
 		gk, gv := keysOf(c.AsArray())
 		vf.Assert("catalog-reverse-exact", vf.And(eqInts(gk, rev(ks)), eqInts(gv, rev(vs))))
+	case 2:
+		// a history: natural sort, reverse, natural sort again - ascending by key each time it is sorted
+		asc := func() bool {
+			gk, _ := keysOf(c.AsArray())
+			ok := true
+			for i := 0; i+1 < len(gk); i++ {
+				ok = vf.And(ok, gk[i] < gk[i+1])
+			}
+			return ok
+		}
+		c.SortValues()
+		vf.Assert("catalog-natural-sort-ascending", asc())
+		first, _ := keysOf(c.AsArray())
+		c.ReverseValues()
+		gk, _ := keysOf(c.AsArray())
+		vf.Assert("catalog-reverse-after-sort-exact", eqInts(gk, rev(first)))
+		c.SortValues()
+		vf.Assert("catalog-sorted-again-after-reverse", asc())
+		c.ShuffleValues()
+		c.SortValues()
+		vf.Assert("catalog-sorted-again-after-shuffle", asc())
 	}
 	for i := range ks {
 		vf.Assert("catalog-lookup-unaffected-by-reordering", c.GetValue(ks[i]) == vs[i])
@@ -251,5 +272,28 @@ func VF_C09_LongRuns(n, sel int) {
 	}
 	vf.Assert("long-array-ascending", ok)
 	vf.Assert("long-array-permutation", isPerm(xs, orig))
+	vf.Reach("end")
+}
+
+// (i) one sorter instance used again: every SortValues call sorts the array it is given and nothing else.
+func VF_C09_SorterReuse(n, m int) {
+	xs := vf.Ints("xs", n)
+	ys := vf.Ints("ys", m)
+	ox, oy := clone(xs), clone(ys)
+	s := age.Sorter[int]().MakeWithRanker(ufRanker)
+	vf.Budget(80 * listBudget)
+	s.SortValues(xs)
+	first := clone(xs)
+	vf.Assert("first-sort-ascending-permutation", vf.And(ascendingUF(xs), isPerm(xs, ox)))
+	s.SortValues(ys)
+	vf.Assert("second-array-ascending-permutation", vf.And(ascendingUF(ys), isPerm(ys, oy)))
+	vf.Assert("first-array-untouched-by-the-second-sort", eqInts(xs, first))
+	s.SortValues(xs)
+	// (stability is not part of the property: values that rank equal may change places)
+	vf.Assert("sorting-a-sorted-array-again-ascending-permutation", vf.And(ascendingUF(xs), isPerm(xs, ox)))
+	s.ReverseValues(xs)
+	s.SortValues(xs)
+	vf.Assert("sorted-again-after-reverse", vf.And(ascendingUF(xs), isPerm(xs, ox)))
+	vf.BudgetReset()
 	vf.Reach("end")
 }
